@@ -27,10 +27,10 @@ ASSUMPTIONS = [
     "lemma L-KKT: a feasible allocation with the water-filling (KKT) structure maximises sum log2(1+g Es p/noise) over all "
     "non-negative allocations of the same total power: proved for all N in Lean 4 + Mathlib in the thorough tier "
     "(lemma/kkt_structure_implies_capacity_optimal_lean); assumed in the quick tier",
-    "N bounded: quick 1..4, thorough 1..6; larger N only in the bounded native check (N <= 60)",
+    "N bounded: quick 1..4, thorough 1..5; larger N only in the bounded native check (N <= 60)",
 ]
 TRUSTED_BASE = ["numpy argsort / fancy indexing executed natively on object arrays"]
-BOUNDS = {"N_quick": [1, 4], "N_thorough": [1, 6], "native_N": 60,
+BOUNDS = {"N_quick": [1, 4], "N_thorough": [1, 5], "native_N": 60,
           "representations": "float32/int64/int32/uint8 arrays, strided and reversed views, int / numpy-scalar Pt, noise, Es on 8 gain vectors x 5 budgets"}
 DOWF = "pyphysim.comm.waterfilling:doWF"
 
@@ -63,7 +63,7 @@ def _replay(mv):
         return {"confirmed": False, "error": repr(e)}
 
 
-@obligation("kkt_structure", params=[{"N": n, "_tiers": ("quick", "thorough") if n <= 4 else ("thorough",)} for n in range(1, 7)],
+@obligation("kkt_structure", params=[{"N": n, "_tiers": ("quick", "thorough") if n <= 4 else ("thorough",)} for n in range(1, 6)],
             timeout=3000,
             desc="for all positive gains/Pt/noise/Es: P>=0, sum(P)==Pt, P_i == max(0, mu - noise/(Es*g_i)) with the returned mu")
 def ob_kkt(N):
